@@ -211,8 +211,14 @@ def gen_trace(tdgl, args, tmp):
     film = _poly(tdgl, args["film"], "film")
     holes = [_poly(tdgl, h, f"hole{k}") for k, h in enumerate(args.get("holes", []))]
     terms = [_poly(tdgl, t, f"term{k}") for k, t in enumerate(args.get("terminals", []))]
-    dev = tdgl.Device("dev", layer=layer, film=film, holes=holes, terminals=terms, length_units=args.get("units", "um"))
     key = json.dumps(args, sort_keys=True)
+    # the description must be a well-formed device: holes strictly inside the film and apart from each other
+    # (Triangle crashes the process on holes that touch the outline; such inputs are not documented geometries)
+    for k, h in enumerate(holes):
+        if not film.polygon.contains(h.polygon) or film.polygon.exterior.distance(h.polygon) < 0.05 \
+                or any(h.polygon.distance(o.polygon) < 0.05 for o in holes[:k]):
+            return {"kind": "invalid", "key": key}
+    dev = tdgl.Device("dev", layer=layer, film=film, holes=holes, terminals=terms, length_units=args.get("units", "um"))
     try:
         dev.make_mesh(**args.get("mesh", {}))
     except Exception as ex:
@@ -295,6 +301,79 @@ def strip_trace(t):
     return {k: t[k] for k in keep}
 
 
+# ------------------------------------------------------------------ crash-proof execution of the real code
+
+
+def run_batches(ctx, jobs, batch=12, nthreads=12, timeout=1500):
+    """jobs: list of (func name, args).  Each batch runs in its own interpreter (`python -m harness.meshgeom`), so that
+    a crash of the mesh generator (Triangle can kill the process) becomes an observation {"kind": "crashed"} instead
+    of a hung pool.  Results come back in order."""
+    import concurrent.futures as cf
+    import os
+    import subprocess
+    import sys
+
+    wdir = ctx.tmp / "batches"
+    wdir.mkdir(exist_ok=True)
+    results = [None] * len(jobs)
+    env = dict(os.environ, NUMBA_NUM_THREADS="1", OMP_NUM_THREADS="1", MPLBACKEND="Agg")
+
+    def one(k):
+        todo = list(range(k, min(k + batch, len(jobs))))
+        rnd = 0
+        while todo:
+            inf, outf = wdir / f"in_{k}_{rnd}.json", wdir / f"out_{k}_{rnd}.jsonl"
+            inf.write_text(json.dumps([[n, jobs[n][0], jobs[n][1]] for n in todo]))
+            try:
+                p = subprocess.run([sys.executable, "-m", "harness.meshgeom", str(inf), str(outf)], cwd=str(core.VERIF), env=env,
+                                   capture_output=True, text=True, timeout=timeout)
+                rc, err = p.returncode, p.stderr[-1500:]
+            except subprocess.TimeoutExpired:
+                rc, err = 124, "timeout"
+            done = set()
+            started = None
+            if outf.exists():
+                for line in outf.read_text().splitlines():
+                    rec = json.loads(line)
+                    if "start" in rec:
+                        started = rec["start"]
+                    else:
+                        results[rec["n"]] = rec["result"]
+                        done.add(rec["n"])
+            if rc == 0 and all(n in done for n in todo):
+                return
+            if started is None or started in done:
+                raise core.MachineryFailure(f"C07 batch runner failed (rc={rc}) without a culprit: {err}")
+            if rc > 0 and rc != 124:      # a Python exception in the harness, not a crash of the code under test
+                raise core.MachineryFailure(f"C07 batch runner failed on job {jobs[started][0]} {json.dumps(jobs[started][1])[:300]}: {err}")
+            results[started] = {"kind": "crashed", "rc": rc, "key": json.dumps(jobs[started][1], sort_keys=True)[:2000]}
+            todo = [n for n in todo if n not in done and n != started]
+            rnd += 1
+
+    with cf.ThreadPoolExecutor(nthreads) as ex:
+        list(ex.map(one, range(0, len(jobs), batch)))
+    return results
+
+
+def _runner_main(argv):
+    import logging
+    import os
+
+    jobs = json.load(open(argv[1]))
+    devnull = os.open(os.devnull, os.O_WRONLY)
+    os.dup2(devnull, 2)  # tqdm progress bars
+    tdgl = core.import_tdgl()
+    logging.disable(logging.CRITICAL)
+    with open(argv[2], "w") as out:
+        for n, func, args in jobs:
+            out.write(json.dumps({"start": n}) + "\n")
+            out.flush()
+            res = globals()[func](tdgl, args, None)
+            out.write(json.dumps({"n": n, "result": res}) + "\n")
+            out.flush()
+    return 0
+
+
 # ------------------------------------------------------------------ parallel batch validation
 
 
@@ -335,3 +414,9 @@ def validate_parallel(ctx, traces, what, nthreads=6, chunk=None):
             if mm:
                 accepted.add(k + int(mm.group(1)) - 1)
     return accepted
+
+
+if __name__ == "__main__":
+    import sys
+
+    sys.exit(_runner_main(sys.argv))
